@@ -3,6 +3,13 @@
 use super::*;
 use crate::config::kani_config_h::{committee_of, key};
 use crypto::Hash as _;
+// explicit imports: the harness must not depend on which names the real file happens to import
+#[allow(unused_imports)]
+use crate::consensus::Round;
+#[allow(unused_imports)]
+use crate::messages::{Timeout, Vote, QC, TC};
+#[allow(unused_imports)]
+use crypto::{Digest, PublicKey, Signature};
 
 fn any_digest() -> Digest {
     Digest(crypto::DBytes(vwit::any_bytes::<8>()))
@@ -118,6 +125,13 @@ qm_h!(c19_qcmaker_203_never, 3, [2, 0, 3], 0);
 qm_h!(c19_qcmaker_dup_11230_at3, 5, [1, 1, 2, 3, 0], 3);
 qm_h!(c19_qcmaker_dup_30332_at2, 5, [3, 0, 3, 3, 2], 2);
 qm_h!(c19_qcmaker_dup_2201_at3, 4, [2, 2, 0, 1], 3);
+// thorough tier: other author orders / crossing points / late duplicates
+qm_h!(c19_qcmaker_3210_at2, 4, [3, 2, 1, 0], 2);
+qm_h!(c19_qcmaker_3210_at4, 4, [3, 2, 1, 0], 4);
+qm_h!(c19_qcmaker_1302_at1, 4, [1, 3, 0, 2], 1);
+qm_h!(c19_qcmaker_dup_01012_at3, 5, [0, 1, 0, 1, 2], 3);
+qm_h!(c19_qcmaker_dup_after_0123_3_at3, 5, [0, 1, 2, 3, 3], 3);
+qm_h!(c19_qcmaker_dup_00112_never, 5, [0, 0, 1, 1, 2], 0);
 
 /// Real TCMaker::append, same scheme, symbolic high-QC rounds.
 fn tcmaker_at<const K: usize>(order: [u8; K], s_form: usize) {
@@ -223,6 +237,11 @@ macro_rules! tm_h {
 tm_h!(c19_tcmaker_3120_at2, 4, [3, 1, 2, 0], 2);
 tm_h!(c19_tcmaker_3120_at3, 4, [3, 1, 2, 0], 3);
 tm_h!(c19_tcmaker_dup_0221_at3, 4, [0, 2, 2, 1], 3);
+// thorough tier
+tm_h!(c19_tcmaker_0123_at1, 4, [0, 1, 2, 3], 1);
+tm_h!(c19_tcmaker_0123_at4, 4, [0, 1, 2, 3], 4);
+tm_h!(c19_tcmaker_dup_3310_at2, 4, [3, 3, 1, 0], 2);
+tm_h!(c19_tcmaker_21_never, 2, [2, 1], 0);
 
 /// Real Aggregator with votes for two blocks and two rounds interleaved (keys concrete, authors symbolic):
 /// every QC contains only votes cast for exactly its (block, round).
